@@ -7,11 +7,14 @@ import (
 	"encoding/pem"
 	"fmt"
 	"net"
+	"os"
 	"os/exec"
+	"path/filepath"
 	"sort"
 	"strconv"
 	"strings"
 	"sync"
+	"sync/atomic"
 	"time"
 
 	hclog "github.com/hashicorp/go-hclog"
@@ -281,6 +284,9 @@ func c01Gen(t *rapid.T) any {
 	}
 	if pct(t, "cmdlaunch", p) {
 		c.Launch = "cmd"
+		if pct(t, "shlaunch", 35) {
+			c.Launch = "sh" // the plugin is a #! wrapper script, not a native executable
+		}
 	}
 	return c
 }
@@ -495,6 +501,8 @@ func c01Script(c *c01Case) FakeSpec {
 	return FakeSpec{Steps: steps}
 }
 
+var c01Seq int64
+
 func c01Run(ci any) (out Outcome) {
 	c := ci.(*c01Case)
 	ref := c01Reference(c.Cfg, c.Line)
@@ -508,6 +516,21 @@ func c01Run(ci any) (out Outcome) {
 		cc = c.Cfg.clientConfig(nil, startTimeout)
 		cc.Cmd = fakeCmd(c01Script(c))
 		out.label("launch:cmd")
+	} else if c.Launch == "sh" {
+		cc = c.Cfg.clientConfig(nil, startTimeout)
+		n := atomic.AddInt64(&c01Seq, 1)
+		data := filepath.Join(scratchDir(), fmt.Sprintf("c01-%d.out", n))
+		exe := filepath.Join(scratchDir(), fmt.Sprintf("c01-%d.sh", n))
+		defer os.Remove(data)
+		defer os.Remove(exe)
+		os.WriteFile(data, c01Script(c).Steps[0].Data, 0o644)
+		tail := "exit 0\n"
+		if c.Alive {
+			tail = "exec sleep 30\n"
+		}
+		os.WriteFile(exe, []byte("#!/bin/sh\ncat "+data+"\n"+tail), 0o755)
+		cc.Cmd = exec.Command(exe)
+		out.label("launch:sh")
 	} else {
 		sr = newScriptRunner(c01Script(c))
 		cc = c.Cfg.clientConfig(func(hclog.Logger, *exec.Cmd, string) (runner.Runner, error) { return sr, nil }, startTimeout)
@@ -681,7 +704,7 @@ var propC01 = register(&Prop{
 	Run: c01Run,
 	Rule: "rapid draws a client configuration (legacy/versioned/both version sets, allowed-protocol lists incl. unknown names and empty, TLS none/static/AutoMTLS, mux on/off) " +
 		"and a first stdout line from a per-field class grammar (core/app/network/address/protocol/certificate/mux field each canonical or from a hostile class list; 0-8 fields; blanks), " +
-		"then optional byte mutations, or fully random bytes; terminator nl/crlf/eof/more-lines/never-terminated; delivered through an in-process scripted runner or (6% of the cases, 50% for unix paths not in their shortest spelling) by a real process behind the library's own command runner. " +
+		"then optional byte mutations, or fully random bytes; terminator nl/crlf/eof/more-lines/never-terminated; delivered through an in-process scripted runner or (6% of the cases, 50% for unix paths not in their shortest spelling) by a real process (the test binary or a #! wrapper script) behind the library's own command runner. " +
 		"Oracle: independent reference parser: must-fail conditions of the statement, canonical lines must succeed, on success reported network/address/protocol/version equal the line, " +
 		"never (nil,nil), never a panic, bounded return. Non-trivial: >=4 fields with acceptable core and app version (address/protocol/cert/mux logic reached) or Start succeeded.",
 	Assumptions: []string{
